@@ -101,6 +101,66 @@ def generate(repo, g):
         raise TieBroken('_cleanup_process no longer kills, waits, joins and closes in that order', repr(steps))
     g.define('cleanupSteps', 'List String', lean_list(steps), 'subprocess/__init__.py:_cleanup_process')
 
+    # --- _cleanup_process: the close loop. Which streams, and is the try/except INSIDE the loop (one
+    # per stream) or around the whole loop (the first close() that raises ends it)?
+    def _is_close(stmt):
+        return (isinstance(stmt, ast.Expr) and isinstance(stmt.value, ast.Call)
+                and u(stmt.value.func) == 'stream.close' and not stmt.value.args and not stmt.value.keywords)
+
+    def _pass_handlers(t, what):
+        if t.orelse or t.finalbody:
+            raise TieBroken('_cleanup_process: %s has else/finally' % what, u(t))
+        names = []
+        for h in t.handlers:
+            if not all(isinstance(x, ast.Pass) for x in h.body):
+                raise TieBroken('_cleanup_process: a handler of %s does more than `pass`' % what, u(h))
+            names += except_names(h)
+        return names
+
+    loops = [n for n in ast.walk(cp) if isinstance(n, ast.For)]
+    if len(loops) != 1 or u(loops[0].target) != 'stream' or loops[0].orelse \
+            or not isinstance(loops[0].iter, (ast.List, ast.Tuple)):
+        raise TieBroken('_cleanup_process: expected exactly one `for stream in [...]` loop',
+                        repr([u(l) for l in loops]))
+    loop = loops[0]
+    streams = [u(e) for e in loop.iter.elts]
+    if any(x not in ('process.stdin', 'process.stdout', 'process.stderr') for x in streams):
+        raise TieBroken('_cleanup_process: the close loop iterates over something else than the pipes of '
+                        'the process', repr(streams))
+    enclosing = [t for t in ast.walk(cp) if isinstance(t, ast.Try) and loop in list(ast.walk(t))]
+    body = loop.body
+    if len(body) == 1 and isinstance(body[0], ast.Try) and len(body[0].body) == 1 \
+            and _is_close(body[0].body[0]) and not enclosing:
+        per_stream, clause = True, _pass_handlers(body[0], 'the try around stream.close()')
+    elif len(body) == 1 and _is_close(body[0]) and len(enclosing) == 1 and enclosing[0].body == [loop] \
+            and enclosing[0] in cp.body:
+        per_stream, clause = False, _pass_handlers(enclosing[0], 'the try around the close loop')
+    elif len(body) == 1 and _is_close(body[0]) and not enclosing:
+        per_stream, clause = True, []          # no try at all: nothing is caught
+    else:
+        raise TieBroken('_cleanup_process: the close loop has an unknown shape', u(loop))
+    after = cp.body[cp.body.index(enclosing[0] if enclosing else loop) + 1:] if (
+        (enclosing[0] if enclosing else loop) in cp.body) else None
+    if after is None or after:
+        raise TieBroken('_cleanup_process: the close loop is not the last top-level statement', u(cp))
+    g.define('cleanupCloseStreams', 'List String', lean_list(streams),
+             'subprocess/__init__.py:_cleanup_process `for stream in [...]`')
+    g.define('cleanupClosePerStream', 'Bool', lean_bool(per_stream),
+             'subprocess/__init__.py:_cleanup_process: the try/except is inside the close loop (one per stream)')
+    g.define('cleanupCloseCatch', 'List String', lean_list(clause),
+             'subprocess/__init__.py:_cleanup_process except clause of the close loop (handler body: pass)')
+
+    # --- _get_process: the three pipes the close loop has to release
+    popen = [n for n in ast.walk(gp) if isinstance(n, ast.Call) and u(n.func) == '_GeneralizedPopen']
+    if len(popen) != 1:
+        raise TieBroken('_get_process: expected exactly one _GeneralizedPopen(...) call')
+    pipes = sorted(k.arg for k in popen[0].keywords if k.arg in ('stdin', 'stdout', 'stderr')
+                   and u(k.value) == 'subprocess.PIPE')
+    if pipes != ['stderr', 'stdin', 'stdout']:
+        raise TieBroken('_get_process: the helper is no longer started with three pipes', repr(pipes))
+    g.define('popenPipes', 'List String', lean_list(['process.' + x for x in ('stdin', 'stdout', 'stderr')]),
+             'subprocess/__init__.py:CompiledSubprocess._get_process Popen(stdin=PIPE, stdout=PIPE, stderr=PIPE)')
+
     # --- __del__ guard
     d = sub.find('InferenceStateSubprocess.__del__')
     if len(d.body) != 1 or not isinstance(d.body[0], ast.If):
